@@ -6,6 +6,7 @@ package parser
 
 import (
 	"fmt"
+	"sort"
 
 	grammar "github.com/acekingke/yaccgo/Grammar"
 	item "github.com/acekingke/yaccgo/Items"
@@ -127,10 +128,11 @@ func (v *astDeclareVistor) Process(node *Node) {
 		//set other value
 		v.code = n.CodeList
 		v.union = n.Union
-		for key, id := range v.idsymtabl {
-			if id.Value == 0 {
+		// number in a fixed order, map iteration order is random
+		for _, key := range sortedIdNames(v.idsymtabl) {
+			if id := v.idsymtabl[key]; id.Value == 0 {
 				v.idMaxValue++
-				v.idsymtabl[key].Value = v.idMaxValue
+				id.Value = v.idMaxValue
 			}
 		}
 	}
@@ -243,7 +245,8 @@ func (w *Walker) BuildLALR1() *lalr.LALR1 {
 		//1. create symbo
 		index := 1
 		// first move the terminal symbol first
-		for _, id := range v.idsymtabl {
+		for _, key := range sortedIdNames(v.idsymtabl) {
+			id := v.idsymtabl[key]
 			if id.IDTyp == TERMID {
 				terminals = append(terminals, id)
 			}
@@ -353,6 +356,24 @@ func ParseAndBuild(input string) (*Walker, error) {
 
 func (v *RootVistor) GetIdsymtabl() map[string]*Idendity {
 	return v.idsymtabl
+}
+
+// GetSortedIdendities returns the identifier table in a fixed (name) order.
+func (v *RootVistor) GetSortedIdendities() []*Idendity {
+	res := make([]*Idendity, 0, len(v.idsymtabl))
+	for _, key := range sortedIdNames(v.idsymtabl) {
+		res = append(res, v.idsymtabl[key])
+	}
+	return res
+}
+
+func sortedIdNames(tabl map[string]*Idendity) []string {
+	names := make([]string, 0, len(tabl))
+	for name := range tabl {
+		names = append(names, name)
+	}
+	sort.Strings(names)
+	return names
 }
 
 func (v *RootVistor) GetUion() string {
